@@ -60,6 +60,15 @@ def transfers(config):
                 ["transfer", wl, "T", ["A02"], "P", ["B03"], [4747], {}],
                 ["transfer", wl + "7", "T", ["A01", "B01", "C01"], "P", ["A01", "B01", "A02"], [32, 39, 46], {}],
                 ["transfer", wl + "7", "Q", ["B02"], "U", ["A02"], [60.5], {}],
+                # volumes handed over in small integer dtypes (products and negations must not wrap around)
+                ["transfer", wl, "T", ["A01", "B02"], "P", ["A01", "B01"], {"$npa": ["uint8", [200, 100]]}, {}],
+                ["distribute", wl, "T", 0, "P", ["A01", "B02", "A03"], {"volume": {"$nps": ["uint8", 100]}}],
+                ["distribute", wl, "T", 1, "Q", ["C02", "A01"], {"volume": {"$nps": ["int8", 100]}}],
+                ["add", "P", ["A01", "B01"], {"$npa": ["uint8", [200, 100]]}, {}],
+                ["remove", "P", ["A01", "A01"], {"$npa": ["uint8", [200, 200]]}, {}],
+                ["remove", "T", "B02", {"$nps": ["uint16", 300]}, {}],
+                ["aspirate", wl, "Q", ["A01"], {"$nps": ["uint8", 200]}, {}],
+                ["dispense", wl, "T", ["A01", "B01"], {"$npa": ["int8", [100, 100]]}, {}],
             ]
     # distribute: the source column is charged once per listed destination well (repeats and trough aliases included)
     for wl in ("e", "f"):
@@ -293,7 +302,7 @@ class Harness(cm.BaseA):
         if out == "ok":
             g = geo_of(cm.spec_of(config, dst))
             wells = flat_f(ref_wells(dw, config))
-            v = Fraction(kw["volume"])
+            v = Fraction(ref_vols(kw["volume"]))
             led[src][(0, col)] -= v * len(wells)
             for w_ in wells:
                 led[dst][g.real(w_)] += v
